@@ -8,6 +8,7 @@ import (
 	"runtime/debug"
 	"sort"
 	"strconv"
+	"sync"
 	"strings"
 
 	"github.com/vicanso/pike/config"
@@ -386,6 +387,24 @@ func c05AliasStress(r *hx.Run, w *W, srvs []c05Srv, rnd *rand.Rand, cur *c05Case
 			}
 			res := w.Cl.Do(hx.Req{Addr: s.addr, Host: "c05.example", URI: cases[i].URI, Header: hdr})
 			c05Compare(r, w, cases[i], "alias_stress_store", accept, res)
+		}
+		// many clients at once that accept no coding: each answer is decompressed from the stored variant
+		{
+			var cwg sync.WaitGroup
+			results := make([]*hx.Result, len(cases))
+			for i := range cases {
+				cwg.Add(1)
+				go func(i int) {
+					defer cwg.Done()
+					results[i] = w.Cl.Do(hx.Req{Addr: s.addr, Host: "c05.example", URI: cases[i].URI})
+				}(i)
+			}
+			cwg.Wait()
+			for i, res := range results {
+				if res.Label == "hit" {
+					c05Compare(r, w, cases[i], "alias_stress_concurrent_identity", "", res)
+				}
+			}
 		}
 		for pass := 0; pass < 2; pass++ {
 			for i := range cases {
